@@ -55,10 +55,44 @@ Theorem C03_exit_free_nests_rebuilt_unbounded :
 Proof. exact nest_handler. Qed.
 Print Assumptions C03_exit_free_nests_rebuilt_unbounded.
 
-(* the passes alone, on any well-positioned flat list (the form the theorem above shows the machine leaves) *)
-Theorem C03_passes_rebuild_any_nest : forall l lo hi, wpw lo hi l -> detect (flats l) = Ok (fins l).
+(* the passes alone, on any well-positioned flat list (the form the theorem above shows the machine leaves) - here also
+   with  exit repeat : an item  IExit false p t  is the raw forward jump at p to an address t past the end of the loop
+   that contains it (wp demands t > end for every exit of a loop body, through ifs: exits_gt), at any place of the body -
+   directly in the loop, in a then part, in an else part, followed by further statements.  At the top level (no loop
+   around) there is no exit left to convert (exits_done).  Every exit comes out as the statement  exit repeat  at its
+   place, and the ifs / loops around it are rebuilt as without it. *)
+Theorem C03_passes_rebuild_any_nest : forall l lo hi, wpw lo hi l -> exits_done l = true -> detect (flats l) = Ok (fins l).
 Proof. exact detect_nest. Qed.
 Print Assumptions C03_passes_rebuild_any_nest.
+
+(* non-vacuity of the exit part: a loop whose body has exits in a then part, alone in a then part with an else, at the
+   end of an else part and directly in the body *)
+Definition pl (p : Z) : node := Stmt p (Call "put" p None true false false).
+Definition exits_example : list item :=
+  [IPlain (pl 0);
+   IWhile false 1 2 (true_at 1) 40
+     [IPlain (pl 5);
+      IIf 8 (true_at 7) 20 [IPlain (pl 10); IExit false 12 43];
+      IIfE 20 (true_at 20) 30 [IExit false 22 43] 27 38 [IPlain (pl 31); IExit false 33 43];
+      IExit false 38 43];
+   IPlain (pl 45)].
+Example C03_exits_example_wp : wpw 0 46 exits_example /\ exits_done exits_example = true.
+Proof.
+  split; [|reflexivity]. unfold exits_example.
+  repeat (first [apply wp_nil; lia | apply wp_plain; [reflexivity | cbn [pos_of pl]; lia | cbn [pos_of pl]]
+                | apply wp_if; [lia | discriminate | |] | apply wp_ife; [lia | discriminate | discriminate | | lia | |]
+                | apply wp_while; [lia | lia | reflexivity | | reflexivity |] | apply wp_exit; [lia|]]).
+Qed.
+Example C03_exits_example_run : detect (flats exits_example) = Ok (fins exits_example) /\
+  fins exits_example =
+  [pl 0;
+   loop_stmt 1 40 (true_at 1)
+     [pl 5;
+      Stmt 8 (IfThen 8 (true_at 7) [pl 10; Stmt 12 (ExitRepeat 12)] []);
+      Stmt 20 (IfThen 20 (true_at 20) [Stmt 22 (ExitRepeat 22)] [pl 31; Stmt 33 (ExitRepeat 33)]);
+      Stmt 38 (ExitRepeat 38)];
+   pl 45].
+Proof. split; [vm_compute; reflexivity | reflexivity]. Qed.
 
 (* non-vacuity, and agreement with the run used by the bounded theorem: a three-level nest in the test handler *)
 Definition flow_env : env := Build_env flow_names [] flow_locals ["h"%string] [].
@@ -85,8 +119,8 @@ From DRX Require Import Spec.SpecFor Proofs.LingoNestFor.
    expressions as bounds, a local variable as counter): Director compiles them as an assignment, a loop on
    v <= b / v >= b and a last statement adding 1 / -1 (SpecFor.desugar); the decompiler recognises the pattern,
    restores the header with its variable, bounds and direction, drops the step and deletes the initial assignment
-   (SpecFor.final), to any nesting depth and mixed freely with if / if-else / repeat while.  Only  exit repeat
-   (the open findings P1-P4) and  repeat with ... in <list>  are outside this theorem. *)
+   (SpecFor.final), to any nesting depth and mixed freely with if / if-else / repeat while.  Only  exit repeat  (covered at the level of the passes,
+   C03_passes_rebuild_any_nest, and by the bounded theorem) and  repeat with ... in <list>  are outside this theorem. *)
 Theorem C03_counting_loops_rebuilt_unbounded :
   forall en props q d off fuel r m,
   wf_p any_cond en (desugar q) -> ok2 en q -> agrees_p en props m -> m_stack m = [] -> f_stmts (m_fn m) = [] ->
